@@ -82,6 +82,7 @@ class C01System(BuilderSystem):
             if st.ctx:
                 ops.append(["exit", [], {}])
                 ops.append(["exit!", [], {}])
+                ops.append(["exit!k", [], {}])
         if self.tracers:
             p = st.g.position.resolve()
             rel = st.g.distance_mode.is_relative
@@ -125,11 +126,11 @@ class C01System(BuilderSystem):
             chunks = st.rec.take()
             st.last_exc, st.last_rejected = exc, exc is not None
         else:
-            entry_mode = st.ctxinfo[-1][1] if (op[0] in ("exit", "exit!") and st.ctxinfo) else None
+            entry_mode = st.ctxinfo[-1][1] if (op[0] in ("exit", "exit!", "exit!k") and st.ctxinfo) else None
             exc, chunks = self.apply(st, op)
             if entry_mode is not None and str(st.g.distance_mode) != entry_mode:
                 problems.append(("context-did-not-restore-mode", f"{op[0]}: distance mode on entry was {entry_mode}, after leaving the context "
-                                 f"{'(body raised) ' if op[0] == 'exit!' else ''}it is {st.g.distance_mode}"))
+                                 f"{'(body raised) ' if op[0] != 'exit' else ''}it is {st.g.distance_mode}"))
         self.feed(st, chunks, problems)
         m = st.machine
         g = st.g
